@@ -340,11 +340,16 @@ def cases(profile="general"):
                 stages.append({"do": draw(st.sampled_from(["resume", "resume", "abort", "stop", "halt"]))})
         case["stages"] = stages
         if profile in ("general", "errors") and draw(st.integers(0, 2 if profile == "general" else 0)) == 0:
-            dev = draw(st.sampled_from(DETS + MOTORS))
-            if dev in MOTORS:
-                op = draw(st.sampled_from(["set", "read", "stop", "unstage", "stage"]))
+            if b.staged and draw(st.booleans()):
+                # faults inside staging / cleanup of a device the plan really stages
+                dev = draw(st.sampled_from(sorted(b.staged)))
+                op = draw(st.sampled_from(["unstage", "unstage", "stage"]))
             else:
-                op = draw(st.sampled_from(["trigger", "read", "unstage", "stage"]))
+                dev = draw(st.sampled_from(DETS + MOTORS))
+                if dev in MOTORS:
+                    op = draw(st.sampled_from(["set", "read", "stop", "unstage", "stage"]))
+                else:
+                    op = draw(st.sampled_from(["trigger", "read", "unstage", "stage"]))
             kind = "raise"
             if op in ("set", "trigger") and draw(st.booleans()):
                 kind = "status_fail"
